@@ -35,7 +35,19 @@ class C10(Check):
             if fml.size(f) > 40:
                 continue
             items.append((f, nv))
-        for (f, nv) in items:
+        # bounded-future specifications, pastified (with the first operand named as a sub-specification in half of the cases)
+        FUT = ('evt', 0, 2, P)
+        pitems = [(('alwt', 0, 1, FUT), 2), (('and', FUT, ('once', P)), 2), (('sincet', 0, 2, FUT, P), 2), (('next', P), 2), (('untilt', 1, 2, P, ('not', P)), 2)]
+        for i in range(nrand // 3):
+            nv = rng.choice([1, 2, 2])
+            g = fml.Gen(rng, nvars=nv, unbounded_future=False, maxb=2, fancy_arith=False)
+            f = g.formula(rng.choice([1, 2, 2, 3]))
+            if fml.size(f) > 25 or not fml.has_future(f) or any(x[0] in fml.UNB_FUTURE for x in fml.subformulas(f)):
+                continue
+            pitems.append((f, nv))
+        npast = len(pitems)
+        items = [(f, nv, True) for (f, nv) in pitems] + [(f, nv, False) for (f, nv) in items]
+        for (f, nv, past) in items:
             nv = need_vars(f, nv)
             h = rng.choice([0, 0, 1, 2, 3, 5, 9, 20, 40])
             k = rng.choice([1, 2, 3, 5, 9, 20])
@@ -50,10 +62,10 @@ class C10(Check):
                 # the continuation omits one variable in some updates (never in its first update of the history part)
                 v = rng.choice(fml.fvars(f))
                 omit = [[kk, v] for kk in range(h, n) if rng.random() < 0.5]
-            sub = rng.random() < 0.3
+            sub = rng.random() < (0.5 if past else 0.3)
             # earlier reset() calls inside the history (a monitor can be reset any number of times)
             resets = sorted(rng.sample(range(0, h + 1), min(h + 1, rng.choice([1, 1, 2])))) if rng.random() < 0.35 else []
-            cases.append({'f': f, 'n': n, 'h': h, 'nv': nv, 'cols': cols, 'times': times, 'omit': omit, 'sub': sub, 'resets': resets})
+            cases.append({'f': f, 'n': n, 'h': h, 'nv': nv, 'cols': cols, 'times': times, 'omit': omit, 'sub': sub, 'resets': resets, 'past': past})
         return cases
 
     def _spec(self, c):
@@ -70,6 +82,8 @@ class C10(Check):
         h, n = c['h'], c['n']
         base = {'monitor': 'discrete-online', 'vars': fml.VARS[:c['nv']]}
         base.update(self._spec(c))
+        if c.get('past'):
+            base['pastify'] = True
         a = dict(base)
         hist, lo = [], 0
         for r in [x for x in c.get('resets', []) if x <= h]:
@@ -82,11 +96,20 @@ class C10(Check):
         return [a, b]
 
     def model_lines(self, c):
+        if c.get('past'):
+            return ['(past stl %s %d %s)' % (fml.to_sx(c['f']), c['n'] - c['h'], fml.trace_sx([col[c['h']:] for col in c['cols']]))]
         return ['(onreset std (%s) %d %d %s)' % (fml.to_sx(c['f']), c['h'], c['n'] - c['h'], fml.trace_sx(c['cols'])),
                 '(on std (%s) %d %s)' % (fml.to_sx(c['f']), c['n'] - c['h'], fml.trace_sx([col[c['h']:] for col in c['cols']]))]
 
     def judge(self, c, mlines, ires):
-        m1, m2 = parse_fields(mlines[0]), parse_fields(mlines[1])
+        if c.get('past'):
+            # pastified monitors: the monitor after reset() against a freshly constructed, parsed and pastified one (what the
+            # pastified monitor computes is C03's subject); the model of the pastified monitor is compared from sample h on
+            m1 = m2 = parse_fields(mlines[0])
+            if 'ERROR' in m2:
+                return 'model-error', mlines
+        else:
+            m1, m2 = parse_fields(mlines[0]), parse_fields(mlines[1])
         if 'ERROR' in m1 or 'ERROR' in m2:
             return 'model-error', mlines
         if m2['EXACT'] != ['1']:
@@ -108,7 +131,7 @@ class C10(Check):
         fresh = [r['value'] for r in b['calls']]
         if post != fresh:
             return 'violation', dict(det, expected={'fresh monitor (outputs..., counter)': fresh}, observed={'after reset': post})
-        if not c.get('omit'):
+        if not c.get('omit') and not c.get('past'):
             mo = json.loads(json.dumps(expect_vals([fml.parse_val(x) for x in m1['ON']])))
             mf = json.loads(json.dumps(expect_vals([fml.parse_val(x) for x in m2['ON']])))
             if mo != mf:
@@ -118,10 +141,13 @@ class C10(Check):
         return 'ok', None
 
     def nontrivial(self, c):
-        return c['h'] >= 1 and bool(fml.ops(c['f']) & {'prev', 'sprev', 'once', 'hist', 'since', 'oncet', 'histt', 'sincet', 'rise', 'fall'})
+        return c['h'] >= 1 and bool(fml.ops(c['f']) & {'evt', 'alwt', 'untilt', 'next', 'snext', 'prev', 'sprev', 'once', 'hist', 'since', 'oncet', 'histt', 'sincet', 'rise', 'fall'})
 
     def key(self, c):
-        return json.dumps([fml.to_sx(c['f']), c['cols'], c['h'], c.get('omit'), c.get('sub'), c.get('resets')])
+        return json.dumps([fml.to_sx(c['f']), c['cols'], c['h'], c.get('omit'), c.get('sub'), c.get('resets'), c.get('past')])
+
+    def features(self, c):
+        return Check.features(self, c) + (['pastified'] if c.get('past') else []) + (['sub-specification'] if c.get('sub') else [])
 
     def describe(self, c):
         return {'spec': self._spec(c), 'history': c['h'], 'continuation': c['n'] - c['h'], 'data': c['cols'], 'time': c['times'], 'omitted': c.get('omit')}
